@@ -106,7 +106,7 @@ def special_disc(r, kind):
 def run(ctx):
     r = ctx.rng
     impl = ctx.build('asan')
-    n = 40 if ctx.tier == 'quick' else 500
+    n = 72 if ctx.tier == 'quick' else 500
     cases = []
     kinds = ['wdfs-second-empty', 'wdfs-first-empty', 'wdfs-empty', 'zero-length', 'zero-length', 'zero-only']
     for k in range(n):
